@@ -791,6 +791,10 @@ def gen_scenarios(tier, rnd, lz=None):
             M2.append(("m2:raw:flipbit", [raw(r_flipbit(i, i % 8), "flip")], f"byte{i}bit{i % 8}"))
         for n in (0, 1, 2, 3, 4, 5, 200, n2 - 19, n2 - 18, n2 - 17, n2 - 1):
             M2.append(("m2:raw:truncate", [raw(r_trunc(n), "trunc")], f"len{n}"))
+        # an accessory whose REAL salt is all zeros (cfg 2): a dropped Salt item would normalise to the same value
+        S.append(Scn("m2:drop:salt:zero-salt-accessory", tr, 2, m2=[top(l_drop(T_SALT), "drop")], detail="drop"))
+        S.append(Scn("m2:salt:empty:zero-salt-accessory", tr, 2, m2=[top(l_set(T_SALT, const_v(b"")), "empty")], detail="empty"))
+        S.append(Scn("m2:salt:short:zero-salt-accessory", tr, 2, m2=[top(l_set(T_SALT, const_v(bytes(3))), "3zeros")], detail="3zeros"))
         for it in M2:
             fam, ops = it[0], it[1]
             S.append(Scn(fam, tr, 0, m2=ops, detail=it[2] if len(it) > 2 else "+".join(o[2] for o in ops)))
@@ -817,6 +821,8 @@ def gen_scenarios(tier, rnd, lz=None):
         M4.append(("m4:proof:len65", [top(l_set(T_PROOF, lambda ctx, v: ctx.U.abstract(v.b + b"\x00")), "65")]))
         M4.append(("m4:proof:zero-prefixed", [top(l_set(T_PROOF, lambda ctx, v: lit(b"\x00") + v), "00+proof")]))
         M4.append(("m4:proof:first-32", [top(l_set(T_PROOF, lambda ctx, v: ctx.U.abstract(v.b[:32])), "32")]))
+        for n_ in (1, 2, 8, 16, 32, 48, 63):     # a proper SUFFIX of the genuine proof (right-aligned truncation)
+            M4.append(("m4:proof:suffix", [top(l_set(T_PROOF, lambda ctx, v, n_=n_: ctx.U.abstract(v.b[-n_:])), f"last{n_}")]))
         M4.append(("m4:mfi-encrypted-data", [top(l_add(-1, T_ENC, bytes(range(40))), "mfi")]))
         for st_ in (b"\x02", b"\x05", b"\x06", b"", b"\x04\x00"):
             M4.append(("m4:state:value", [top(l_set(T_STATE, const_v(st_)), "state=" + st_.hex())]))
@@ -1169,6 +1175,14 @@ def run(ctx):
             bad = ("returned-unauthenticated:" + str(r["why_not"]) + ":" + s.transport,
                    "pairing data was returned although the delivered replies fail the C03 acceptance condition, "
                    f"evaluated independently on the bytes (reason: {r['why_not']})")
+        elif (r["oracle"] == "client-view" and str(r["why_not"]).startswith("m2:") and r["bytes"]["m3"]) or \
+             (r["oracle"] == "client-view" and str(r["why_not"]).startswith("m4:") and r["bytes"]["m5"]):
+            # the message that fails the acceptance condition must itself make pairing fail: the controller
+            # must not answer it (M3 after a bad M2 / M5 - which carries its identity - after a bad M4)
+            nxt = "M3" if str(r["why_not"]).startswith("m2:") else "M5"
+            bad = ("continued-after-unauthenticated:" + str(r["why_not"]) + ":" + s.transport,
+                   f"the controller answered with {nxt} although the reply before it fails the C03 acceptance condition "
+                   f"(reason: {r['why_not']}): that message must make pairing fail with an error")
         elif done and r["rec_problems"]:
             bad = ("record-inconsistent:" + s.transport, "returned record is not self-consistent: " + "; ".join(r["rec_problems"]))
         elif done and r["just"] and (r["record"]["AccessoryPairingID"] != r["just"][0]
